@@ -41,11 +41,37 @@ def handler_names(h):
     return [exc_name(h.type)]
 
 
+REPORTING_HELPERS = set()     # names of repo functions whose body reports an error on every path (set by set_repo)
+
+
+def set_repo(repo):
+    """find helper functions that always report, so that `except X: helper(...)` counts as a reporting handler"""
+    REPORTING_HELPERS.clear()
+    for _ in range(2):
+        for q, fn in repo.all_functions():
+            if isinstance(fn, ast.FunctionDef) and fn.name not in REPORTING_HELPERS and q.split("::")[0] not in ("reports",):
+                body = fn.body
+                if body_reports(body):
+                    from ..engine import flow
+                    mf = flow.MustFlow(lambda x: {"reported"} if is_report_call(x) else set())
+                    mf.loop_stack = []
+                    out = mf.block(body, frozenset())
+                    # facts at every return
+                    rets = [n for n in ast.walk(fn) if isinstance(n, ast.Return)]
+                    ok = (out is flow.TOP or "reported" in out) and all("reported" in (mf.before.get(id(r)) or ()) for r in rets)
+                    if ok:
+                        REPORTING_HELPERS.add(fn.name)
+
+
 def is_report_call(node, priorities=("error", "critical")):
-    """reports.error(...) / reports.critical(...) / error(...)"""
+    """reports.error(...) / reports.critical(...) / a helper that always reports"""
     if not isinstance(node, ast.Call):
         return False
     f = node.func
+    if isinstance(f, ast.Name) and f.id in REPORTING_HELPERS and "error" in priorities:
+        return True
+    if isinstance(f, ast.Attribute) and f.attr in REPORTING_HELPERS and "error" in priorities and isinstance(f.value, ast.Name) and f.value.id in ("self", "cls"):
+        return True
     if isinstance(f, ast.Attribute) and f.attr in priorities and isinstance(f.value, ast.Name) and f.value.id == "reports":
         return True
     if isinstance(f, ast.Attribute) and f.attr == "emit_report":
